@@ -109,5 +109,6 @@ fn main() {
             2
         }
     };
+    driver::cleanup_worker_dirs();
     std::process::exit(code);
 }
